@@ -29,9 +29,11 @@ type ExploreStats struct {
 	Samples             []string
 	PerProp             map[string]int64 // invariant evaluations per property
 	DrainSteps          int64
-	MergeDeliveries     int64 // histories whose last event delivered the result of a merge job (C07 at service level)
-	PickPoints          int64 // transitions at which the service chose among several waiting tags
-	ForcedPicks         int64 // additional histories run to cover the choices it did not make by itself
+	Diverged            int64  // replays that took another course than the recorded history (judged, not expanded)
+	CapNote             string // first such divergence
+	MergeDeliveries     int64  // histories whose last event delivered the result of a merge job (C07 at service level)
+	PickPoints          int64  // transitions at which the service chose among several waiting tags
+	ForcedPicks         int64  // additional histories run to cover the choices it did not make by itself
 }
 
 type node struct {
@@ -52,6 +54,8 @@ type result struct {
 	cands          []string
 	retry          bool // a named pick was not the one the service made in this run
 	mergeDelivered bool
+	diverged       string // see run1: non-determinism of the code under test
+	divergedAt     int
 }
 
 // pcOf counts the api events of a path.
@@ -100,8 +104,13 @@ func run1(sc *Scenario, path []string, convBin string) (res result) {
 			}
 		}
 		if !found {
-			res.hardErr = fmt.Errorf("replay divergence at step %d of [%s]: event %q not enabled (enabled %v)", i, res.pathDesc, ev, en)
-			return
+			// the same history did something else this time: the code under test is not deterministic under
+			// the harness' scheduling (e.g. it acts on whatever a map iteration yields first).  What was
+			// executed is still a real execution: it is judged like any other (invariants, drain), the
+			// exploration behind it is given up and the run is reported as not exhaustive.
+			res.diverged = fmt.Sprintf("replay of [%s] diverged at step %d: event %q not enabled (enabled %v)", res.pathDesc, i, ev, en)
+			res.divergedAt = i
+			break
 		}
 		nViews := len(w.Views)
 		// C07 at service level: delivering a merge result must not change what a fresh view shows
@@ -119,8 +128,9 @@ func run1(sc *Scenario, path []string, convBin string) (res result) {
 		}
 		if err := w.Apply(ev); err != nil {
 			if errors.Is(err, ErrPick) {
-				res.retry = true
-				return
+				res.diverged = fmt.Sprintf("replay of [%s] diverged at step %d: %v", res.pathDesc, i, err)
+				res.divergedAt = i + 1
+				break
 			}
 			if errors.Is(err, ErrJobStuck) && i == len(path)-1 {
 				res.viol = append(res.viol, V{"C09", "c09.job-never-completes", err.Error()})
@@ -136,14 +146,16 @@ func run1(sc *Scenario, path []string, convBin string) (res result) {
 		if len(w.LastCands) > 1 {
 			if !strings.Contains(ev, PickSep) {
 				if i != len(path)-1 {
-					res.hardErr = fmt.Errorf("replay divergence at step %d of [%s]: event %q started a tagging job with several eligible tags %v, which it did not when the history was recorded", i, res.pathDesc, ev, w.LastCands)
-					return
+					res.diverged = fmt.Sprintf("replay of [%s] diverged at step %d: event %q started a tagging job with several eligible tags %v, which it did not when the history was recorded", res.pathDesc, i, ev, w.LastCands)
+					res.divergedAt = i + 1
+					break
 				}
 				res.pick, res.cands = w.LastPick, w.LastCands
 			}
 		} else if strings.Contains(ev, PickSep) && len(w.LastCands) < 2 {
-			res.hardErr = fmt.Errorf("replay divergence at step %d of [%s]: event %q names a pick but eligible tags are %v", i, res.pathDesc, ev, w.LastCands)
-			return
+			res.diverged = fmt.Sprintf("replay of [%s] diverged at step %d: event %q names a pick but eligible tags are %v", res.pathDesc, i, ev, w.LastCands)
+			res.divergedAt = i + 1
+			break
 		}
 		if mergeApplied {
 			res.mergeDelivered = true
@@ -291,6 +303,16 @@ func Explore(sc *Scenario, convBin string, maxStates int64, deadline time.Time, 
 			if r.hardErr != nil {
 				mc.Fatal("scenario %s: %v", sc.Name, r.hardErr)
 			}
+			if r.diverged != "" {
+				st.Diverged++
+				if st.CapNote == "" {
+					st.CapNote = "non-deterministic behaviour of the code under test: " + r.diverged
+				}
+				for _, v := range r.viol {
+					report(frontier[i].path[:r.divergedAt], v)
+				}
+				continue
+			}
 			st.Transitions++
 			if r.mergeDelivered {
 				st.MergeDeliveries++
@@ -354,6 +376,9 @@ func Explore(sc *Scenario, convBin string, maxStates int64, deadline time.Time, 
 		}
 		sort.Slice(next, func(i, j int) bool { return lessStrs(next[i].path, next[j].path) })
 		frontier = next
+	}
+	if st.CapHit == "" && st.Diverged != 0 {
+		st.CapHit = fmt.Sprintf("%d replays diverged; %s", st.Diverged, st.CapNote)
 	}
 	st.Complete = st.CapHit == ""
 	return st
